@@ -930,7 +930,8 @@ type Summary struct {
 
 func explore(eng *Engine, cfg *Config) *Summary {
 	t0 := time.Now()
-	sum := &Summary{Harness: cfg.Harness, Bounds: cfg.Bounds, Outcomes: map[string]int64{}, Reached: map[string]int64{}}
+	sum := &Summary{Harness: cfg.Harness, Bounds: cfg.Bounds, Outcomes: map[string]int64{}, Reached: map[string]int64{},
+		Findings: []Finding{}, Incomplete: []string{}, Samples: []*ReplayVector{}, EngineErrors: []string{}}
 	var mu sync.Mutex
 	cond := sync.NewCond(&mu)
 	stack := []workItem{{}}
